@@ -78,9 +78,11 @@ func tmplIfStmts() listTemplate {
 
 func genDeclTemplate(name, open string, elem func(id int) string, lists func(f *dst.File) (reflect.Value, reflect.Value)) listTemplate {
 	return listTemplate{Name: name,
-		Open:  func(l string) []string { return []string{strings.ReplaceAll(open, "%L", l)} },
-		Close: func(string) []string { return []string{map[bool]string{true: ")", false: "}"}[strings.HasSuffix(open, "(")], ""} },
-		Elem:  func(id int) []string { return []string{"\t" + elem(id)} }, Indent: "\t", Lists: lists}
+		Open: func(l string) []string { return []string{strings.ReplaceAll(open, "%L", l)} },
+		Close: func(string) []string {
+			return []string{map[bool]string{true: ")", false: "}"}[strings.HasSuffix(open, "(")], ""}
+		},
+		Elem: func(id int) []string { return []string{"\t" + elem(id)} }, Indent: "\t", Lists: lists}
 }
 
 func tmplDecls() listTemplate {
